@@ -127,4 +127,27 @@ TEXT["C20"] = dict(engine="seqmc", design_ref="DESIGN.md 6 C20",
           "write-through, and liveness of temporaries for the whole loop are judged",
     note="trusted: instrumented element type with live-set; ASan for dangling temporaries")
 
+TEXT["C08"] = dict(engine="enum", design_ref="DESIGN.md 6 C08",
+    technique="bounded exhaustive enumeration of format strings x argument tuples x supply/read paths vs a naive single-scan reference; exception-message sequences",
+    level="model checking of the implementation: every format string over {'{','}','a'} up to the length bound x every argument count 0..k+1 "
+          "x every tuple over argument texts that themselves contain braces and placeholders, through operator% and args(...), read by str(), "
+          "conversion and operator<<; typed values and stream manipulators; exception messages alone and after every ordered pair of earlier "
+          "exceptions (sticky manipulators, nested raise) - text must equal positional, verbatim, never-rescanned substitution and wrong arity must raise",
+    note="trusted: the naive reference scanner; narrow-character formats; for > 3 placeholders only three arguments vary")
+TEXT["C16"] = dict(engine="enum", design_ref="DESIGN.md 6 C16",
+    technique="exhaustive enumeration of all pairs, triples and in-place change histories over small member grids",
+    level="model checking (exhaustive small grids): for three mix-in value types, nested tuple/pair/variant and smart pointers, every ordered "
+          "pair (six comparison operators vs hand-written lexicographic comparison, trichotomy, equal => equal hash incl. signed zeros), every "
+          "triple (transitivity), every in-place change value_i -> value_j after the object was hashed (hash must follow the members), hash "
+          "sensitivity per member position and to member order, and hash containers (find exactly the inserted keys)",
+    note="trusted: hand-written member comparisons; NaN excluded; 'rare collisions' judged as <= 5 % on the grid")
+TEXT["C19"] = dict(engine="seqmc", design_ref="DESIGN.md 6 C19",
+    technique="exhaustive (name, value, default, overload) grid for env::get; explicit-state BFS to a fixpoint over dl/symbol histories with interposed dlopen/dlclose",
+    level="model checking of the implementation: env::get on every byte string of length <= 3 over 6 bytes x unset x 3 defaults x both overloads; "
+          "dl: every reachable state of a pool of 2 library and 2 symbol objects over two test libraries and the program itself under open / "
+          "failed open / load / failed load / copy / assign / move / call / destroy, to a fixpoint; after every transition the loader's mapping "
+          "state (RTLD_NOLOAD) and the dlopen/dlclose balance must equal the reference count per successful open, failed opens and lookups "
+          "raise nitro::dl::exception with a diagnostic, symbols call into their own library",
+    note="trusted: link-time interposition of dlopen/dlclose in the harness executable, this image's glibc loader, the reference counting model in checks/C19.cpp")
+
 NA = {}
